@@ -4,6 +4,7 @@ use crate::exec::*;
 use crate::genr::*;
 use crate::monitors as m;
 use crate::rng::Rng;
+use crate::steps::*;
 use crate::runner::*;
 use crate::trace::*;
 use serde_json::json;
@@ -19,6 +20,8 @@ pub struct GenCheck {
     pub workloads: Vec<(&'static str, u64, u64, ProfileFn)>,
     pub monitor: MonitorFn,
     pub max_steps: usize,
+    /// append the benign continuation with at most this many polls (0 = none)
+    pub epilogue_polls: usize,
     pub min_nt: (usize, usize),
     pub required: Vec<&'static str>,
 }
@@ -47,7 +50,20 @@ pub fn sample_of(log: &RunLog, w: &crate::world::World) -> serde_json::Value {
 pub fn run_generated(profile: Profile, rng: &mut Rng, seed: u64, max_steps: usize) -> (RunLog, crate::world::Shared) {
     let cfg = gen_cfg(rng, &profile);
     let mut g = Gen::new(rng.next(), profile);
-    run_case(&cfg, seed, &mut g, max_steps)
+    g.steps_left = max_steps;
+    run_case(&cfg, seed, &mut g, max_steps + 8)
+}
+
+/// Same, followed by the benign continuation (reconnect + poll until idle).
+pub fn run_generated_epilogue(profile: Profile, rng: &mut Rng, seed: u64, max_steps: usize, max_polls: usize) -> (RunLog, crate::world::Shared) {
+    let cfg = gen_cfg(rng, &profile);
+    let mut g = Gen::new(rng.next(), profile);
+    g.steps_left = max_steps;
+    let mut d = WithEpilogue::new(g, max_polls);
+    let (mut log, world) = run_case(&cfg, seed, &mut d, max_steps + max_polls + 16);
+    log.epilogue = true;
+    log.epilogue_from = d.from_step;
+    (log, world)
 }
 
 pub fn finish_case(id: &str, log: &RunLog, w: &crate::world::World, out: &mut CaseOut, nontrivial: bool, verbose: bool) {
@@ -104,7 +120,11 @@ impl Check for GenCheck {
     fn run(&self, workload: usize, seed: u64, _index: u64, _tier: Tier, verbose: bool) -> CaseOut {
         let mut rng = Rng::new(seed);
         let profile = (self.workloads[workload].3)(&mut rng);
-        let (log, world) = run_generated(profile, &mut rng, seed, self.max_steps);
+        let (log, world) = if self.epilogue_polls > 0 {
+            run_generated_epilogue(profile, &mut rng, seed, self.max_steps, self.epilogue_polls)
+        } else {
+            run_generated(profile, &mut rng, seed, self.max_steps)
+        };
         let w = world.borrow();
         let t = Trace::new(&log, &w);
         let mut out = CaseOut::default();
@@ -134,6 +154,102 @@ fn c01_cancel_heavy(r: &mut Rng) -> Profile {
     p
 }
 
+
+fn replay_heavy(r: &mut Rng) -> Profile {
+    let mut p = Profile::default();
+    p.name = "replay-heavy";
+    p.w_pub = [2, 14, 14];
+    p.w_sub = 3;
+    p.w_unsub = 2;
+    p.w_drop = 5;
+    p.w_forget = 1;
+    p.w_bclose = 3;
+    p.w_bdisc = 2;
+    p.w_fault = 5;
+    p.w_drive = 10;
+    p.w_poll = 20;
+    p.w_release = 14;
+    p.w_bstale = 1;
+    p.ack_modes = vec![AckMode::Hold, AckMode::Hold, AckMode::Hold, AckMode::Immediate, AckMode::Never, AckMode::Delay(500)];
+    p.sp_w = [2, 10, 1];
+    p.bad_connack_pct = 6;
+    p.conn_fault_pct = 40;
+    p.max_conns = 8;
+    p.rm_choices = vec![None, None, Some(8), Some(9), Some(3)];
+    p.mps_choices = vec![None];
+    p.maxqos_choices = vec![None];
+    p.tx_choices = vec![256, 512, 2048];
+    p.cancel_pct = *r.pick(&[0u32, 10, 30]);
+    p
+}
+
+fn qos2_heavy(r: &mut Rng) -> Profile {
+    let mut p = replay_heavy(r);
+    p.name = "qos2-heavy";
+    p.w_pub = [1, 3, 24];
+    p.fail_pcts = vec![0, 0, 15];
+    p
+}
+
+fn session_mix(r: &mut Rng) -> Profile {
+    let mut p = replay_heavy(r);
+    p.name = "session-mix";
+    p.sp_w = [3, 4, 4];
+    p.bad_connack_pct = 25;
+    p.connect_cancel_pct = 15;
+    p.assigned_id_pct = 25;
+    p.w_pub = [2, 8, 8];
+    p.w_sub = 6;
+    p.w_unsub = 5;
+    p.w_bpublish = 10;
+    p
+}
+
+fn window_heavy(r: &mut Rng) -> Profile {
+    let mut p = replay_heavy(r);
+    p.name = "window-heavy";
+    p.rm_choices = vec![Some(1), Some(2), Some(3), Some(7), Some(8), Some(9), Some(16), Some(65535), None];
+    p.w_pub = [1, 16, 16];
+    p.w_release = 8;
+    p.tx_choices = vec![1024, 4096];
+    p.payload_max = 16;
+    p
+}
+
+fn acks_heavy(r: &mut Rng) -> Profile {
+    let mut p = replay_heavy(r);
+    p.name = "acks-heavy";
+    p.fail_pcts = vec![0, 20, 50];
+    p.longform_pcts = vec![0, 50, 100];
+    p.w_sub = 8;
+    p.w_unsub = 6;
+    p.sp_w = [3, 5, 3];
+    p
+}
+
+macro_rules! gen_check {
+    ($id:expr, $level:expr, $rule:expr, $assume:expr, $wl:expr, $mon:expr, $steps:expr, $epi:expr, $min:expr, $req:expr) => {
+        Box::new(GenCheck {
+            id: $id,
+            level: $level,
+            rule: $rule,
+            assumptions: $assume,
+            workloads: $wl,
+            monitor: $mon,
+            max_steps: $steps,
+            epilogue_polls: $epi,
+            min_nt: $min,
+            required: $req,
+        }) as Box<dyn Check>
+    };
+}
+
+const COMMON_ASSUME: [&str; 3] = [
+    "harness (SimIo, virtual time, executor, reference broker) and refcodec are correct",
+    "acceptance of a cancelled/failed request is read from the verif snapshot hook (retained list grew by one entry)",
+    "an inbound packet counts as processed by the client from the moment its last byte was read (processing is synchronous after the read)",
+];
+
 pub fn all() -> Vec<Box<dyn Check>> {
     vec![Box::new(GenCheck {
         id: "C01",
@@ -148,7 +264,39 @@ pub fn all() -> Vec<Box<dyn Check>> {
         workloads: vec![("general", 3000, 300_000, general), ("cancel-heavy", 3000, 300_000, c01_cancel_heavy)],
         monitor: m::c01::check,
         max_steps: 60,
+        epilogue_polls: 0,
         min_nt: (200, 2000),
         required: vec!["writes_ending_mid_packet", "cancelled_mid_packet"],
-    })]
+    }),
+    gen_check!("C02", "fault_enumeration",
+        "random adaptive histories with held/reordered/failed acks and connections killed by injected transport faults (error/EOF at a random I/O index), broker DISCONNECT/close, handle drop/forget, followed by resumed or fresh reconnects and a benign continuation; per accepted QoS 1 message the monitor checks transmissions per connection, bytes, DUP, order, no send after PUBACK, replay on every drained resumed connection, completion in the end. Non-trivial iff at least one retransmission on a later connection was observed.",
+        COMMON_ASSUME.to_vec(),
+        vec![("replay-heavy", 4000, 400_000, replay_heavy as ProfileFn), ("general", 2000, 200_000, general)],
+        m::c02::check, 70, 40, (200, 2000), vec!["retransmissions", "replays_verified", "completed_in_the_end"]),
+    gen_check!("C03", "fault_enumeration",
+        "as C02 with QoS 2-heavy programs: several exchanges in different phases, PUBREC/PUBCOMP released in arbitrary order, failure codes, connection loss between any two of the four steps, resumed reconnects. Non-trivial iff a resumed connection started with at least one exchange in the release phase.",
+        COMMON_ASSUME.to_vec(),
+        vec![("qos2-heavy", 4000, 400_000, qos2_heavy as ProfileFn), ("general", 2000, 200_000, general)],
+        m::c03::check, 70, 40, (200, 2000), vec!["resumes_with_release_phase", "pubrel_replays_verified", "replays_with_2plus_pubrel"]),
+    gen_check!("C05", "exploration",
+        "sequences of up to 8 connections with arbitrary session-present answers, rejected/garbled/EOF/silent/cancelled handshakes in between and arbitrary in-flight state at each loss; the monitor judges CONNECT flags and client id, connect event, invalidation, absence of stale transmissions and complete in-order replay. Non-trivial iff a resumed connection began with in-flight state or at least two connections were established.",
+        COMMON_ASSUME.to_vec(),
+        vec![("session-mix", 4000, 400_000, session_mix as ProfileFn), ("general", 2000, 200_000, general)],
+        m::c05::check, 70, 0, (200, 2000), vec!["resumes_with_inflight", "handles_checked_after_fresh_session", "replays_verified"]),
+    gen_check!("C06", "exploration",
+        "programs with Receive Maximum in {1,2,3,7,8,9,16,65535,absent}, mixed QoS 1/2, held/reordered acks, cancellations and resumed reconnects; conservation monitor in the broker's view (PUBLISH completed on the wire minus acks the broker has sent, plus exchanges entering the connection in the release phase). Non-trivial iff a publish was refused NotReady or a resumed connection began with publishes in flight.",
+        COMMON_ASSUME.to_vec(),
+        vec![("window-heavy", 4000, 400_000, window_heavy as ProfileFn), ("general", 2000, 200_000, general)],
+        m::c06::check, 80, 0, (200, 2000), vec!["not_ready_refusals", "resumes_with_inflight", "window_filled"]),
+    gen_check!("C07", "exploration",
+        "every accepted PUBLISH(QoS>0)/SUBSCRIBE/UNSUBSCRIBE gets an identifier that is non-zero and not used by any request still awaiting its final acknowledgement (reference in-use set rebuilt from consumed acks).",
+        COMMON_ASSUME.to_vec(),
+        vec![("replay-heavy", 3000, 300_000, replay_heavy as ProfileFn), ("general", 3000, 300_000, general)],
+        m::c07::check, 70, 0, (200, 2000), vec!["allocations_with_ids_in_use"]),
+    gen_check!("C18", "exploration",
+        "status of every operation handle is queried after every step and compared with a reference model (pending until the final ack was consumed in the issuing session, invalidated once a fresh-session CONNACK was consumed); failure codes must surface as Rejected from the consuming call. Non-trivial iff a status transition was observed.",
+        COMMON_ASSUME.to_vec(),
+        vec![("acks-heavy", 4000, 400_000, acks_heavy as ProfileFn), ("general", 2000, 200_000, general)],
+        m::c18::check, 70, 0, (200, 2000), vec!["probes_compared", "rejections_surfaced"]),
+    ]
 }
